@@ -41,6 +41,10 @@ theorem classical_should_flip_agree_accProb (exp : Rat → Rat) (beta de : Rat)
   · simp [hd] at h
   · simp [hd]
 
+/-- the hypothesis is satisfiable: `ΔE = 0` draws nothing -/
+example : accProb (fun d => (fun _ => (1 : Rat) / 2) (-(1 : Rat) * d)) 0 = 1 :=
+  classical_should_flip_agree_accProb (fun _ => 1 / 2) 1 0 (by decide)
+
 /-! ### energy differences of the moves -/
 
 /-- the per-neighbour summand: Classical.lean writes `-2 * J * cpl(s_v, s_k)` -/
